@@ -7,6 +7,9 @@
  *   uperbits <val>      number of bits of the stand-alone UPER encoding (uper_encode's .encoded)
  *   oput <val>          uper_open_type_put of the value => bit string
  *   oget <bits>         uper_open_type_get of the current type from the bit string => "<rc> <bits moved>"
+ *   odec <syn> <hex>    like core `dec`, but the decoded structure is printed / validated / re-encoded only after
+ *                       RC_OK (a partially decoded structure is just freed): keeps defects of asn_fprint and of
+ *                       the constraint checkers on half-built structures (other properties) out of this check
  */
 #include "gen_common.h"
 #include <asn_ioc.h>
@@ -43,7 +46,7 @@ static void print_bits(FILE *out, const uint8_t *b, size_t nbits) {
 
 int ops_gen_c18(int argc, char **argv, FILE *out) {
     const char *op = argv[0];
-    if(strcmp(op, "ioc") && strcmp(op, "select") && strcmp(op, "uperbits") && strcmp(op, "oput") && strcmp(op, "oget")) return 0;
+    if(strcmp(op, "ioc") && strcmp(op, "select") && strcmp(op, "uperbits") && strcmp(op, "oput") && strcmp(op, "oget") && strcmp(op, "odec")) return 0;
     if(!cur_td) { fputs("no-type", out); return 1; }
     if(!strcmp(op, "ioc")) {
         const asn_TYPE_member_t *om = 0;
@@ -118,6 +121,18 @@ int ops_gen_c18(int argc, char **argv, FILE *out) {
         }
         free(sk.buf);
         ASN_STRUCT_FREE(*cur_td, st); free(v);
+        return 1;
+    }
+    if(!strcmp(op, "odec") && argc == 3) {
+        enum asn_transfer_syntax syn = gen_syntax(argv[1], 1);
+        size_t len; uint8_t *b = hx_parse_exact(argv[2], &len);
+        if(!b) { fputs("bad-op", out); return 1; }
+        void *st = 0;
+        asn_dec_rval_t rv = asn_decode(0, syn, cur_td, &st, b, len);
+        fprintf(out, "%s %zu ", gen_rc_name(rv.code), rv.consumed);
+        if(rv.code == RC_OK && st) { rf_dump(cur_td, st, out); gen_exercise(cur_td, st); } else fputc('-', out);
+        ASN_STRUCT_FREE(*cur_td, st);
+        free(b);
         return 1;
     }
     if(!strcmp(op, "oget") && argc == 2) {
